@@ -330,6 +330,10 @@ MonStep(m, act, o) ==
                                                   !.exp = [alive |-> o.st.alive, lc |-> o.st.lc, ec |-> o.st.ec, qc |-> o.st.qc],
                                                   !.cands = {[alive |-> o.st.alive, lc |-> o.st.lc, ec |-> o.st.ec,
                                                               qc |-> o.st.qc, lv |-> FALSE]}]
+    \* a burst of events pushed without waiting, right before a shutdown: which of them the main loop and which the
+    \* shutdown drain loop sees is a race; after a leave none may be recorded whoever sees them, so the restart is judged
+    \* as usual; before a leave the expected state would be ambiguous and the session is not judged
+    [] act.a = "burst"    -> IF m.left THEN m ELSE [m EXCEPT !.had = FALSE]
     [] OTHER              -> m          \* tick, adv, start, crash: nothing to judge at the input itself
 
 ------------------------------------------------------------------------------
